@@ -249,6 +249,16 @@ func inventoryMayPanic(c *Ctx, p *Program, fns []*ssa.Function, prefix string) (
 					}
 					okLo, whyLo := pf.proveRange(x.Y, b, 1, 1<<62, 0)
 					okHi, _ := pf.proveRange(x.Y, b, -(1 << 62), -1, 0)
+					if !okLo && !okHi {
+						// path-sensitive fallback: on every path of an entry point that reaches this division, the conditions taken
+						// before it bound the divisor away from zero (the check may sit in a loop over a table of the values, the
+						// division in a conversion helper)
+						if c == nil {
+							// (control programs have no entry points)
+						} else if why, ok := divisorNonZeroOnPaths(p, parseEntryPoints(c), x); ok {
+							okLo, whyLo = true, why
+						}
+					}
 					dt := vw.Term(x.Y)
 					report(okLo || okHi, prefix+".2", k("div", accessName(dt)), pos, "divisor proven non-zero: "+whyLo,
 						"integer division by `"+dt.String()+"` which is not proven non-zero ("+whyLo+"): a file without that value (or with 0) makes the program panic with an integer divide by zero")
@@ -507,6 +517,15 @@ func indexInRange(pf *parserFacts, vw *FnView, x, idx ssa.Value, b *ssa.BasicBlo
 				return true, ""
 			}
 			return false, "constant index outside the array"
+		}
+		// the index of a (rotated) range loop over the array: idx < N dominates, idx counts up from 0
+		it := vw.Term(idx)
+		for _, a := range vw.GuardsAt(b) {
+			if op, l, r, ok := normAtom(a); ok && op == "<" && l.String() == it.String() {
+				if k, isK := r.IsIntConst(); isK && k <= at.Len() && nonNegativeIndex(idx) {
+					return true, fmt.Sprintf("range index below %d, the length of the array", at.Len())
+				}
+			}
 		}
 		ok, why := pf.proveRange(idx, b, 0, at.Len()-1, 0)
 		return ok, why
@@ -1250,4 +1269,36 @@ func controlsC09(p *Program) []controlResult {
 	ok := len(res) == 0 && bad >= 4 && good >= 4
 	res = append(res, controlResult{Name: "R9 may-panic inventory fires on controls/maypanic.Bad* and not on Good*", OK: ok, Detail: fmt.Sprintf("bad=%d good=%d failures=%d", bad, good, len(res))})
 	return res
+}
+
+// divisorNonZeroOnPaths: see the may-panic inventory (R9.2).
+func divisorNonZeroOnPaths(p *Program, roots []*ssa.Function, div *ssa.BinOp) (string, bool) {
+	total := 0
+	for _, root := range roots {
+		paths, err := Enumerate(root, SymConfig{Prog: p, MaxDepth: 3, MaxVisits: 4, Collapse: true, MaxPaths: 20000})
+		if err != nil {
+			continue
+		}
+		for _, pt := range paths {
+			for _, e := range pt.Effects {
+				if e.Kind != "div" || e.Instr != ssa.Instruction(div) {
+					continue
+				}
+				total++
+				t := e.Args[0].StripConv()
+				n := e.NAtoms
+				if n > len(pt.Atoms) {
+					n = len(pt.Atoms)
+				}
+				b := boundsOf(pt.Atoms[:n], t.String())
+				if !(b.hasLo && b.lo >= 1 || b.hasHi && b.hi <= -1) {
+					return "", false
+				}
+			}
+		}
+	}
+	if total == 0 {
+		return "", false
+	}
+	return fmt.Sprintf("on each of the %d path occurrence(s) from the entry points the conditions taken before the division exclude a zero divisor", total), true
 }
